@@ -27,9 +27,12 @@ ExhBoards(maxTiles) ==
 
 RandBoard(L, W) ==
     LET d == RandomElement({1, 1, 1, 2, 4})
+        \* every fourth integer board carries rewards of two digits (0, 5, 10, 15: the depiction comment,
+        \* the file name of the manual entry point and the reward vectors all print them)
+        m == IF d = 1 THEN RandomElement({1, 1, 1, 5}) ELSE 1
     IN  [Board(L, W,
           TLCEval([i \in 1..L |-> [j \in 1..W |-> RandomElement(0..3)]]),
-          TLCEval([i \in 1..L |-> [j \in 1..W |-> RandomElement(0..(2 * d + 1))]]),
+          TLCEval([i \in 1..L |-> [j \in 1..W |-> m * RandomElement(0..(2 * d + 1))]]),
           TLCEval([i \in 1..L |-> [j \in 1..W |-> RandomElement(0..1)]])) EXCEPT !.rden = d]
 
 SampShape(lo, hi) == RandomElement({lw \in (1..hi) \X (1..hi) : lw[1] * lw[2] >= lo /\ lw[1] * lw[2] <= hi})
